@@ -180,6 +180,10 @@ where
         if !pd.start_states.first().is_some_and(|start| vc.is_valid(start)) {
             return Err(PlanningError::InvalidStartState);
         }
+        // The goal bias is a probability; anything else would make the sampling coin panic.
+        if !(0.0..=1.0).contains(&self.goal_bias) {
+            return Err(PlanningError::InvalidParameter);
+        }
 
         let mut rng = self
             .rng
